@@ -249,8 +249,26 @@ def moved_block_extent_rule(chk, cid, prog, p, cfgname):
         got = sorted(terms(defs[0].c[1]))
         want = sorted([(1, 'Glu->stack.array'), (1, 'Glu->stack.top1'), (-1, 'expanders[(type + 1)].mem')])
         ok = got == want
+    # the extent is taken from stack.top1 *before* the growth is booked: no update of stack.top1 / stack.used may reach the computation
+    early = []
     if ok:
+        blk = None
+        for x in f.body.walk():
+            if x.k == 'Block' and any(y is defs[0] or strip(y) is defs[0] for y in x.c):
+                blk = x
+        if blk is not None:
+            for y in blk.c:
+                if y is defs[0] or strip(y) is defs[0]:
+                    break
+                for z in y.walk():
+                    if z.k == 'Assign' and canon(z.c[0], ids=False) in ('Glu->stack.top1', 'Glu->stack.used'):
+                        early.append(z)
+    if ok and not early:
         chk.ok(cid, inst, sample=pretty(defs[0])[:90])
+    elif ok:
+        chk.violate(cid, inst, loc(f, early[0]), f.name,
+                    '`%s` books the growth before the extent of the block to shift is computed from stack.top1: the shift then moves `extra` bytes too many, '
+                    'into the scratch at the tail of the workspace' % pretty(early[0])[:50], cfgname=cfgname)
     else:
         chk.violate(cid, inst, loc(f, defs[0] if defs else bc[0]), f.name,
                     'the block shifted to make room must end at the top of the head stack: nbytes = stack.array + stack.top1 - expanders[type+1].mem; found %s' % (got,),
